@@ -120,6 +120,7 @@ type Fam struct {
 	height  int64
 	now     int64 // unix ns of the current block
 	inBlock bool
+	committed map[int64][2][]byte // height -> two records of the pos store as committed at that height (C14 monitor)
 	// Tendermint stand-in
 	tm       map[string]int64   // current validator set (addr hex -> power), as Tendermint would hold it for the next heights
 	tmHist   []map[string]int64 // tmHist[h] = validator set that signs height h
@@ -240,6 +241,7 @@ func (f *Fam) doInit(w []string) string {
 		f.rep = &replica{app: NewApp(rdb, rpc, pr), db: rdb, rpc: rpc, pruning: pr}
 	}
 	f.dead, f.height, f.inBlock = false, 0, false
+	f.committed = nil
 	f.minChanged, f.windowChanged = false, false
 	f.tm, f.tmHist, f.pending = map[string]int64{}, nil, nil
 	f.delivered = map[string]bool{}
